@@ -364,10 +364,10 @@ fn chunk_eval(sp: &ChunkSpace, i: u64) -> ItemOut {
         }
     }
     FEEDS.fetch_add(feeds, Ordering::Relaxed);
-    let kinds: String = seq.iter().map(|k| sp.corpus[*k].kind).collect();
     let class = mcx::fnv64(format!("chunk|{seq:?}").as_bytes()) | 1;
     let big = seq.iter().any(|k| sp.corpus[*k].big);
-    ItemOut::new(class, format!("chunking:{}{}:{}", kinds, if big { "(boundary-size)" } else { "" }, if bad == 0 { "all-splits-equal" } else { "SPLIT-DEPENDENT" })).with(vs)
+    let how = if splits == Splits::Pairs { "every split pair" } else { "every single split" };
+    ItemOut::new(class, format!("chunking:{} frame(s){}, {how}:{}", seq.len(), if big { " incl. boundary-size" } else { "" }, if bad == 0 { "same frames at all splits" } else { "SPLIT-DEPENDENT" })).with(vs)
 }
 
 fn chunk_on_panic(sp: &ChunkSpace, i: u64, c: &Caught) -> Violation {
@@ -486,7 +486,10 @@ fn invalid_eval(sp: &InvalidSpace, g: usize, inner: Inner) -> ItemOut {
                 ),
                 sp.witness(g, inner),
             )
-            .cost(bytes.len() as u64),
+            .cost(match inner {
+                Inner::Cut(k) => k as u64 * 100_000 + bytes.len() as u64,
+                Inner::Surplus(..) => u64::MAX / 2,
+            }),
         );
         outcome = format!("{}:Ok(None)=INCOMPLETE", inner_label(inner));
     } else if out.len() == 1 && de.is_empty() {
